@@ -186,10 +186,12 @@ def check_case(case):
             N = cnt[0]
             for k in range(1, N + 1):
                 c = [0]
+                armed = [True]
 
-                def faulty(*a, _good=good, _k=k):
-                    c[0] += 1
-                    if c[0] == _k:
+                def faulty(*a, _good=good, _k=k, _c=c, _armed=armed):
+                    # a transient fault: raises at its k-th invocation while armed, well-behaved afterwards
+                    _c[0] += 1
+                    if _armed[0] and _c[0] == _k:
                         raise Boom()
                     return _good(*a)
 
@@ -200,6 +202,12 @@ def check_case(case):
                         f"fault-changed-graph:{name}",
                         f"{name} with the callback raising at invocation {k} of {N} (caching={case['cache']}, call ended as {res[0]}): {_diff(before, now)}",
                     )
+                # repeat with the very same callable object, now well-behaved (a cache keyed by the callable
+                # must not have kept a partial answer), and then with the original callback
+                armed[0] = False
+                same = outcome(call, faulty)
+                if same != clean:
+                    raise Violation(f"answer-differs-after-fault:{name}", f"{name}: after a transient fault at invocation {k}/{N} the same (now well-behaved) callable gives {str(same)[:200]}, the clean run gave {str(clean)[:200]} (caching={case['cache']})")
                 again = outcome(call, good)
                 if again != clean:
                     raise Violation(f"answer-differs-after-fault:{name}", f"{name}: after a fault at invocation {k}/{N} the well-behaved call gives {str(again)[:200]}, the clean run gave {str(clean)[:200]}")
